@@ -7,7 +7,7 @@ _DBL_PRECISION_SIGNIFICAND_BITS = 53
 
 # equivalent to ceil(_DBL_PRECISION_SIGNIFICAND_BITS / 2) as an integer
 _SPLIT_S = -(-_DBL_PRECISION_SIGNIFICAND_BITS // 2)
-_SPLIT_FACTOR = 1<<_SPLIT_S + 1
+_SPLIT_FACTOR = (1<<_SPLIT_S) + 1
 
 @custom_jvp
 def safe_sqrt(x):
